@@ -68,6 +68,14 @@ NEEDS = {
 }
 
 
+# non-default values of method-specific options of each functional's DEFAULT method that change the result
+DEFAULT_OPTS = {
+    "rootfinder": dict(maxiter=2), "equilibrium": dict(maxiter=2), "minimize": dict(maxiter=2),
+    "solve_ivp": dict(rtol=1e-12, atol=1e-13), "quad": dict(n=2), "mcquad": dict(nsamples=7, nburnout=3),
+    "interp1d": dict(bc_type="natural"), "squad": dict(bc_type="clamped"),
+}
+
+
 def call(fname, method, fx, fwd=None, bck=None):
     """runs functional fname with the given method argument; returns a tensor (or tuple flattened)"""
     fwd = dict(fwd or {})
@@ -444,18 +452,21 @@ def who_runs_where(ctx, fx):
 def run(ctx):
     thorough = ctx.tier == "thorough"
     allf = RawTla("[g \\in Functionals |-> TRUE]")
-    t, cf = tlcmod.gen_mc(ctx.work, "Dispatch", "MC_Dispatch", dict(LowerFirst=allf, AnyCallable=True),
-                          invariants=["CaseInsensitive", "UnknownRejected", "CallableAccepted", "DefaultIsBuiltIn"])
+    t, cf = tlcmod.gen_mc(ctx.work, "Dispatch", "MC_Dispatch", dict(LowerFirst=allf, AnyCallable=True, DefaultTakesOptions=allf),
+                          invariants=["CaseInsensitive", "UnknownRejected", "CallableAccepted", "DefaultIsBuiltIn", "OptionsDelivered"])
     dot = os.path.join(ctx.work, "disp.dot")
     ctx.model_check(t, cf, workers=4, dump_dot=dot, label="dispatch table", timeout=300)
     nodes, inits, edges = tlcmod.parse_dot(dot)
     os.remove(dot)
-    t2, cf2 = tlcmod.gen_mc(ctx.work, "Dispatch", "MC_Dispatch_dev", dict(LowerFirst=RawTla('[g \\in Functionals |-> g \\notin {"solve", "minimize"}]'), AnyCallable=True),
-                            invariants=["CaseInsensitive", "UnknownRejected", "CallableAccepted", "DefaultIsBuiltIn"])
+    t2, cf2 = tlcmod.gen_mc(ctx.work, "Dispatch", "MC_Dispatch_dev", dict(LowerFirst=RawTla('[g \\in Functionals |-> g \\notin {"solve", "minimize"}]'), AnyCallable=True, DefaultTakesOptions=allf),
+                            invariants=["CaseInsensitive", "UnknownRejected", "CallableAccepted", "DefaultIsBuiltIn", "OptionsDelivered"])
     ctx.expect_violation(t2, cf2, inv="CaseInsensitive", label="deviation LowerFirst", workers=4, timeout=300)
-    t3, cf3 = tlcmod.gen_mc(ctx.work, "Dispatch", "MC_Dispatch_dev_callable", dict(LowerFirst=allf, AnyCallable=False),
-                            invariants=["CaseInsensitive", "UnknownRejected", "CallableAccepted", "DefaultIsBuiltIn"])
+    t3, cf3 = tlcmod.gen_mc(ctx.work, "Dispatch", "MC_Dispatch_dev_callable", dict(LowerFirst=allf, AnyCallable=False, DefaultTakesOptions=allf),
+                            invariants=["CaseInsensitive", "UnknownRejected", "CallableAccepted", "DefaultIsBuiltIn", "OptionsDelivered"])
     ctx.expect_violation(t3, cf3, inv="CallableAccepted", label="deviation AnyCallable", workers=4, timeout=300)
+    t4, cf4 = tlcmod.gen_mc(ctx.work, "Dispatch", "MC_Dispatch_dev_defopts", dict(LowerFirst=allf, AnyCallable=True, DefaultTakesOptions=RawTla('[g \\in Functionals |-> g # "squad"]')),
+                            invariants=["CaseInsensitive", "UnknownRejected", "CallableAccepted", "DefaultIsBuiltIn", "OptionsDelivered"])
+    ctx.expect_violation(t4, cf4, inv="OptionsDelivered", label="deviation DefaultTakesOptions", workers=4, timeout=300)
     fx = fixtures(ctx.seed)
     nrows = 0
     with warnings.catch_warnings():
@@ -502,6 +513,24 @@ def run(ctx):
                 ctx.violation("dispatch/%s/%s%s" % (f, cls, "/early-name" if cls == "mixedcase" else "/" + ck if cls == "callable" else ""),
                               "%s(method=%r) [%s %s]: %s" % (f, marg if not callable(marg) else "<callable: %s>" % ck, cls, nm, why), {"f": f, "cls": cls, "nm": nm, "ck": ck})
                 continue
+            if cls == "none" and f in DEFAULT_OPTS:
+                # None IS the default built-in: options given with method=None reach it exactly as when the default is named
+                try:
+                    with_none = call(f, None, fx, fwd=dict(DEFAULT_OPTS[f]))
+                    with_name = call(f, outcome, fx, fwd=dict(DEFAULT_OPTS[f]))
+                    without = call(f, None, fx, fwd={})
+                    nrows += 1
+                    ctx.case(key=(f, "default-with-options"))
+                    if torch.equal(with_name, without):
+                        raise Machinery("the option set %s does not change the result of %s(%s): vacuous" % (DEFAULT_OPTS[f], f, outcome))
+                    if not torch.allclose(with_none, with_name, atol=1e-12, rtol=1e-12):
+                        ctx.violation("dispatch/%s/default-drops-options" % f, "%s(method=None, %s) differs from %s(method=%r, %s) by %.2e%s" % (
+                            f, DEFAULT_OPTS[f], f, outcome, DEFAULT_OPTS[f], float((with_none - with_name).abs().max()),
+                            " and equals the result without the options" if torch.equal(with_none, without) else ""), {"f": f})
+                except Machinery:
+                    raise
+                except Exception as e:
+                    ctx.violation("dispatch/%s/default-drops-options" % f, "%s(method=None) with options %s raised %s: %s" % (f, DEFAULT_OPTS[f], type(e).__name__, str(e)[:120]), {"f": f})
             if cls == "callable":
                 # (1) documented arguments, options, gradient mode, (2) options do not leak, (3) gradients equal the built-in's
                 c0 = probe.calls[0] if probe.calls else None
